@@ -1,4 +1,5 @@
-/-! Scratch prototype: text primitives and the directive grammar (4.1) -/
+/-! Text primitives and the directive grammar (DESIGN 4.1): models of `directive_from.rs`,
+`directive_add_line.rs`, `directive/mod.rs` -/
 namespace Txt
 
 abbrev Str := List Char
@@ -213,5 +214,31 @@ theorem detectFrom_sound (line : Str) (d : Directive) (h : detectFrom line = som
         simp [hty] at h; subst h
         exact ⟨line.dropWhile isWs, after, after, takeWhile_append_dropWhile' _ _, hws, head_dropWhile_not _ _,
           by rw [f1, List.append_assoc], f3, Or.inl ⟨rfl, splitOnceSpace_none _ hs, rfl⟩, hty⟩
+
+
+/-- UTF-8 length in bytes (`str::len`) -/
+def utf8Len (s : Str) : Nat := (s.map Char.utf8Size).sum
+
+def spaces (n : Nat) : Str := List.replicate n ' '
+
+def Directive.push (d : Directive) (a : Str) : Directive := { d with args := d.args ++ [a] }
+
+/-- `Directive::add_line`; `none` = `Err(())` -/
+def addLine (d : Directive) (line : Str) : Option Directive :=
+  if !d.ty.multi then none
+  else if d.ws.isPrefixOf line then
+    let rest := line.drop d.ws.length
+    if rest = trimEnd d.pre then some (d.push [])
+    else if d.pre.isPrefixOf rest then some (d.push (trimEnd (rest.drop d.pre.length)))
+    else if (spaces (utf8Len d.pre)).isPrefixOf rest then some (d.push (trimEnd (rest.drop (utf8Len d.pre))))
+    else none
+  else none
+
+/-- The sentence of property C15, second half: `line` continues `d` with next argument `a`. -/
+def Continues (d : Directive) (line : Str) (a : Str) : Prop :=
+  ∃ rest, line = d.ws ++ rest ∧
+    ((rest = trimEnd d.pre ∧ a = []) ∨
+     (∃ r, rest = d.pre ++ r ∧ a = trimEnd r) ∨
+     (∃ r, rest = spaces (utf8Len d.pre) ++ r ∧ a = trimEnd r))
 
 end Txt
